@@ -737,8 +737,22 @@ impl World {
                             let msg = format!("c{} adds a submodule", self.commits.len());
                             self.new_commit(vec![h], ct, ct, &tz, &tree, &msg)?;
                         }
-                        // the only change anywhere: a tracked file inside the submodule's work tree
-                        io(std::fs::write(d.join("submod/f.txt"), "f\nchanged inside the submodule\n"))?;
+                        // the only change anywhere is inside the submodule; which one follows from the
+                        // world (no extra draw): a modified tracked file, or a new commit (the checked-out
+                        // commit differs from the gitlink, its tree is clean).  An untracked file inside
+                        // the submodule is deliberately not a state: `git status` and `git diff` disagree
+                        // about it, so neither answer could be called a violation of the property.
+                        match self.commits.len() % 2 {
+                            0 => io(std::fs::write(d.join("submod/f.txt"), "f\nchanged inside the submodule\n"))?,
+                            _ => {
+                                let s1 = self.git_ok(
+                                    &["-C", "submod", "commit-tree", &st, "-p", &sc, "-m", "s1"],
+                                    Some((1_000_000_100, 1_000_000_100, "+0000")),
+                                    None,
+                                )?;
+                                self.git_ok(&["-C", "submod", "update-ref", "HEAD", &s1], None, None)?;
+                            }
+                        }
                     }
                     DirtyKind::IgnoredOnly => io(std::fs::write(d.join("artifact.ign"), "i\n"))?,
                     DirtyKind::UntrackedInIgnoredDir => {
